@@ -81,8 +81,20 @@ func (s *RPCServer) Callback(id uint32, _ *int) error {
 	return nil
 }
 
+// ServeNew serves pongRPC on a fresh id. The ACCEPTING side allocates the id (as go-plugin's own
+// Dispense and the bidirectional example do): a MuxBroker's pending map is keyed by id only, and
+// NextId is unique per broker, so ids accepted on one side must all come from that side's counter.
+// (An earlier version let the dialling host allocate it: id 1 then collided with the id the plugin
+// had allocated for Dispense, and Accept closed the lingering entry's doneCh a second time.)
+// ServeID serves pongRPC on the given id (used with an id far from both counters).
 func (s *RPCServer) ServeID(id uint32, _ *int) error {
 	go s.Broker.AcceptAndServe(id, pongRPC{})
+	return nil
+}
+
+func (s *RPCServer) ServeNew(_ int, id *uint32) error {
+	*id = s.Broker.NextId()
+	go s.Broker.AcceptAndServe(*id, pongRPC{})
 	return nil
 }
 
@@ -128,9 +140,9 @@ func (c *RPCClient) Orphan() error {
 }
 
 func (c *RPCClient) RevCallback() error {
-	id := c.b.NextId()
+	var id uint32
 	var r int
-	if err := c.c.Call("Plugin.ServeID", id, &r); err != nil {
+	if err := c.c.Call("Plugin.ServeNew", 0, &id); err != nil {
 		return err
 	}
 	conn, err := c.b.Dial(id)
